@@ -133,10 +133,14 @@ namespace sim
 		const int packet_size = int(p.buffer.size() + p.overhead);
 		m_queue_size -= packet_size;
 
-		forward_packet(std::move(p));
-
+		// start on the next packet before forwarding this one. Forwarding may
+		// synchronously cause a response to be put in this very queue (e.g. a
+		// SYN+ACK or ACK when there's no other hop in between), which would
+		// otherwise start the send a second time
 		if (m_queue.size())
 			begin_send_next_packet();
+
+		forward_packet(std::move(p));
 	}
 }
 
